@@ -80,7 +80,8 @@ InputsCtl(st) ==
             \cup (IF st.select.has THEN {[R("operate", st, [ob |-> "a"]) EXCEPT !.seq = S16(st.select.seq + 1)]}
                   ELSE {})
             \cup {R("dop", st, [ob |-> "a"]), R("dopnr", st, [ob |-> "a"]), R("delay", st, <<>>),
-                  R("write_rst", st, <<>>)}
+                  R("write_rst", st, <<>>), R("write2", st, [ob |-> "bg", bad |-> "reject"]),
+                  R("write2", st, [ob |-> "gb", bad |-> "reject"])}
             \cup {R("delay", st, [src |-> "X"]), R("select", st, [ob |-> "a", src |-> "X"])}
             \cup {R("dopnr", st, [ob |-> "a", dst |-> d]) : d \in {"BC_OPT", "BC_MAN"}}
             \cup {R("write_rst", st, [dst |-> "BC_NR"]), R("delay", st, [dst |-> "BC_OPT"])}
@@ -139,6 +140,7 @@ BiPt(ix, cls)    == [ty |-> "bi", ix |-> ix, cls |-> cls, esz |-> 9, ssz |-> 1, 
 Pts_os2_cap1 == <<OsPt(0, 1, 130), OsPt(1, 2, 130)>>
 Pts_os2_cap2 == <<OsPt(0, 1, 100), OsPt(1, 2, 100)>>
 Pts_mixed    == <<BiPt(0, 2), OsPt(0, 1, 130)>>   \* class 0 reports in type order
+Pts_os_big   == <<BiPt(0, 2), OsPt(0, 1, 250)>>   \* an octet string larger than a 249-byte fragment
 EvMax_os2    == <<0, 0, 0, 0, 0, 0, 0, 2>>
 EvMax_os1    == <<0, 0, 0, 0, 0, 0, 0, 1>>
 EvMax_mixed  == <<2, 0, 0, 0, 0, 0, 0, 2>>
